@@ -3,6 +3,7 @@ Real app.run / run_ftp driven by a scripted error model and decoder realising a 
 import itertools
 import json
 import math
+import re
 from fractions import Fraction
 
 import numpy as np
@@ -26,6 +27,98 @@ def ulps(a, b):
 
 PLAIN = (int, float, str, tuple, type(None), bool)
 
+# ---- numeric kinds of the per-run vectors handed back through DecodeResult (documented type: numpy.array 1d) ----
+# Values are integers in units of 1/DEN, so float kinds carry dyadic values k/4 whose sums are exact.
+DEN = 4
+KIND_DT = {'i8': np.int8, 'u8': np.uint8, 'i16': np.int16, 'u16': np.uint16, 'i32': np.int32, 'u32': np.uint32,
+           'i64': np.int64, 'u64': np.uint64, 'f16': np.float16, 'f32': np.float32, 'f64': np.float64, 'obj': object}
+KINDS = sorted(KIND_DT)
+# (typical magnitude, occasional large magnitude) of the *values* (not scaled); floats are k/4 with k up to 4*that
+KIND_MAG = {'i8': (3, 40), 'u8': (3, 80), 'i16': (9, 9000), 'u16': (9, 20000), 'i32': (9, 2 ** 29), 'u32': (9, 2 ** 30),
+            'i64': (9, 2 ** 40), 'u64': (9, 2 ** 40), 'f16': (2, 64), 'f32': (9, 2 ** 22), 'f64': (9, 2 ** 42),
+            'obj': (9, 2 ** 40)}
+# narrow -> wide, used for the sorted orders
+KIND_RANK = {k: i for i, k in enumerate(['u8', 'i8', 'u16', 'i16', 'f16', 'u32', 'i32', 'f32', 'u64', 'i64', 'f64', 'obj'])}
+
+
+def is_float_kind(kind):
+    return kind[0] == 'f'
+
+
+def mk_array(kind, v):
+    """integer vector v in units of 1/DEN -> numpy array of the given kind, or None if some entry is not exactly
+    representable in that kind (then the scenario is outside the domain)"""
+    if kind == 'obj':
+        if any(x % DEN for x in v):
+            return None
+        a = np.empty(len(v), dtype=object)
+        for i, x in enumerate(v):
+            a[i] = x // DEN
+        return a
+    dt = np.dtype(KIND_DT[kind])
+    if dt.kind in 'iu':
+        info = np.iinfo(dt)
+        if any(x % DEN or not (info.min <= x // DEN <= info.max) for x in v):
+            return None
+        return np.array([x // DEN for x in v], dtype=dt)
+    with np.errstate(all='ignore'):
+        a = np.array([x / DEN for x in v], dtype=np.float64).astype(dt)
+    if any((not math.isfinite(float(y))) or Fraction(float(y)) != Fraction(x, DEN) for x, y in zip(v, a)):
+        return None
+    return a
+
+
+def fits(dt, m):
+    """is m/DEN exactly representable in dtype dt (object holds Python ints/floats: ints always, k/4 as float)"""
+    if dt == np.dtype(object):
+        return abs(m) < 2 ** 53 or m % DEN == 0
+    if dt.kind in 'iu':
+        info = np.iinfo(dt)
+        return m % DEN == 0 and info.min <= m // DEN <= info.max
+    if dt.kind == 'f':
+        if abs(m) >= 2 ** 53:
+            return False
+        with np.errstate(all='ignore'):
+            y = float(np.array(m / DEN, dtype=np.float64).astype(dt))
+        return math.isfinite(y) and Fraction(y) == Fraction(m, DEN)
+    return False
+
+
+def in_domain(kinds, vals):
+    """NumPy's own promotion rule (np.result_type of the kinds seen so far) gives the narrowest dtype a faithful
+    running sum `acc = acc + v` can have after each run. A history is in the domain of the property iff every exact
+    partial sum is representable in that dtype: otherwise the loss of information is the caller's choice of dtype
+    (int8 + int8 wraps, float32 rounds) on ANY implementation that adds NumPy arrays, not a fault of the fold."""
+    acc_dt, tot = None, None
+    for kind, v in zip(kinds, vals):
+        if v is None or (tot is not None and len(tot) != len(v)):
+            return True     # presence / shape mismatch: an error is expected at this run, nothing is summed
+        dt = np.dtype(KIND_DT[kind])
+        acc_dt = dt if acc_dt is None else np.result_type(acc_dt, dt)
+        tot = list(v) if tot is None else [a + b for a, b in zip(tot, v)]
+        if not all(fits(acc_dt, m) for m in tot):
+            return False
+    return True
+
+
+def scaled(a, den):
+    """canonical string of an aggregate tuple in units of 1/den (exact)"""
+    if a is None:
+        return '_'
+    out = []
+    for v in a:
+        try:
+            f = Fraction(v) * den
+            out.append(str(f.numerator) if f.denominator == 1 else '%d/%d' % (f.numerator, f.denominator))
+        except (TypeError, ValueError, OverflowError):
+            out.append(repr(v))
+    return ','.join(out) if out else '-'
+
+
+def unscale(x, den):
+    """x/den as a plain int when integral, else as the (exact, dyadic) float"""
+    return x // den if x % den == 0 else x / den
+
 
 def run(ctx):
     import logging
@@ -38,53 +131,17 @@ def run(ctx):
     rng = ctx.rng
     ctx.rule = ('real app.run/run_ftp with scripted error model + decoder realising a chosen history; every '
                 '(max_runs,max_failures) in {None,1..5}^2 x all 2^6 success histories exhaustively, plus random '
-                'histories to length %d with lc/cv vectors (None, shape changes), weights, ideal and ftp mode. '
+                'histories to length %d with lc/cv vectors (None, shape changes), weights, ideal and ftp mode; '
+                'per-run vectors whose numpy dtype varies from run to run (all ordered pairs of 12 kinds, random '
+                'kind sequences, shared array objects), totals decided exactly in units of 1/4. '
                 'nontrivial = history with >=1 failure and >=1 success consumed and some limit binding'
                 % ctx.pick(20, 40))
     ctx.props_obligations()
     codes = [FiveQubitCode(), SteaneCode(), PlanarCode(2, 3)]
-    req, exp, kern = [], [], []
+    req, exp, kern, kern_mixed = [], [], [], []
 
-    def scenario(code, mode, T, mr, mf, hist, tag, p=0.25, q=None):
-        """hist: list of (success, lc, cv, w); followed by an endless tail of failing copies of the last shape"""
-        n = code.n_k_d[0]
-        tail = (False, hist[-1][1], hist[-1][2], 0)
-        full = hist + [tail] * ((mr or 0) + (mf or 0) + 2)
-        errs = []
-        for (_, _, _, w) in full:
-            # w spread over T step errors as single-qubit X errors (weights add over steps)
-            left = w
-            for t in range(T):
-                e = np.zeros(2 * n, dtype=int)
-                k = min(n, left) if t < T - 1 else left
-                e[:k] = 1
-                left -= k
-                errs.append(e)
-        answers = [DecodeResult(success=s, logical_commutations=None if lc is None else np.array(lc, dtype=int),
-                                custom_values=None if cv is None else np.array(cv, dtype=int))
-                   for (s, lc, cv, _) in full]
-        em, dec = ScriptedErrorModel(errs, label='EM'), ScriptedDecoder(answers, label='DEC')
-        kw = {}
-        if mr is not None:
-            kw['max_runs'] = mr
-        if mf is not None:
-            kw['max_failures'] = mf
-        try:
-            if mode == 'ideal':
-                data = app.run(code, em, dec, p, random_seed=5, **kw)
-            else:
-                data = app.run_ftp(code, T, em, dec, p, q, random_seed=5, **kw)
-            res = 'ok'
-        except QecsimError:
-            data, res = None, 'ERR QecsimError %d' % len(dec.calls)
-        except Exception as e:  # noqa
-            data, res = None, 'ERR %s' % exc_class(e)
-        hs = ';'.join('%d:%s:%s:%d' % (1 if s else 0, ints(lc), ints(cv), w) for (s, lc, cv, w) in full)
-        line = 'run %s %s %d %d %s' % ('_' if mr is None else mr, '_' if mf is None else mf, n, T, hs)
-        rep = {'code': repr(code), 'mode': mode, 'T': T, 'max_runs': mr, 'max_failures': mf,
-               'history': [(s, lc, cv, w) for (s, lc, cv, w) in hist], 'result': res if data is None else
-               {k: (v if isinstance(v, PLAIN) else repr(v)) for k, v in data.items() if k != 'wall_time'}}
-        # ---------- reference fold, independent of the model ----------
+    def fold(mr, mf, full):
+        """reference fold, independent of the model and of the implementation: (k, fails, want_err, lcs, cvs)"""
         emr, emf = (1, None) if (mr is None and mf is None) else (mr, mf)
         k, fails = 0, 0
         want_err = None
@@ -110,7 +167,90 @@ def run(ctx):
                     cvs = cur
             if want_err:
                 break
+        return emr, emf, k, fails, want_err, lcs, cvs
+
+    def scenario(code, mode, T, mr, mf, hist, tag, p=0.25, q=None, kinds=None, share=False, zero_tail=False):
+        """hist: list of (success, lc, cv, w); followed by an endless tail of failing copies of the last shape.
+        kinds = None: lc/cv are integer vectors handed over as int arrays. Otherwise kinds[i] = (lc kind, cv kind) of
+        run i and lc/cv are integers in units of 1/DEN (floats kinds carry k/4); share = the decoder hands out the
+        same array object whenever kind and value repeat. Returns False if the history is outside the domain."""
+        n = code.n_k_d[0]
+        den = 1 if kinds is None else DEN
+        z = (lambda v: None if v is None else [0] * len(v)) if zero_tail else (lambda v: v)
+        tail = (False, z(hist[-1][1]), z(hist[-1][2]), 0)
+        full = hist + [tail] * ((mr or 0) + (mf or 0) + 2)
+        emr, emf, k, fails, want_err, lcs, cvs = fold(mr, mf, full)
         consumed = full[:k]
+        if kinds is None:
+            answers = [DecodeResult(success=s, logical_commutations=None if lc is None else np.array(lc, dtype=int),
+                                    custom_values=None if cv is None else np.array(cv, dtype=int))
+                       for (s, lc, cv, _) in full]
+            fkinds = None
+        else:
+            fkinds = list(kinds) + [kinds[-1]] * (len(full) - len(kinds))
+            # domain: every exact partial sum over the consumed prefix is representable in the NumPy-promoted dtype
+            if not (in_domain([a for a, _ in fkinds[:k]], [lc for (_, lc, _, _) in consumed])
+                    and in_domain([b for _, b in fkinds[:k]], [cv for (_, _, cv, _) in consumed])):
+                return False
+            pool = {}
+
+            def arr(kind, v):
+                if v is None:
+                    return None
+                key = (kind, tuple(v))
+                if share and key in pool:
+                    return pool[key]
+                a = mk_array(kind, v)
+                if a is None:
+                    raise ValueError('unrepresentable')
+                pool[key] = a
+                return a
+            try:
+                answers = [DecodeResult(success=s, logical_commutations=arr(lk, lc), custom_values=arr(ck, cv))
+                           for (s, lc, cv, _), (lk, ck) in zip(full, fkinds)]
+            except ValueError:
+                return False
+        errs = []
+        for (_, _, _, w) in full:
+            # w spread over T step errors as single-qubit X errors (weights add over steps)
+            left = w
+            for t in range(T):
+                e = np.zeros(2 * n, dtype=int)
+                kk = min(n, left) if t < T - 1 else left
+                e[:kk] = 1
+                left -= kk
+                errs.append(e)
+        em, dec = ScriptedErrorModel(errs, label='EM'), ScriptedDecoder(answers, label='DEC')
+        kw = {}
+        if mr is not None:
+            kw['max_runs'] = mr
+        if mf is not None:
+            kw['max_failures'] = mf
+        try:
+            if mode == 'ideal':
+                data = app.run(code, em, dec, p, random_seed=5, **kw)
+            else:
+                data = app.run_ftp(code, T, em, dec, p, q, random_seed=5, **kw)
+            res = 'ok'
+        except QecsimError:
+            data, res = None, 'ERR QecsimError %d' % len(dec.calls)
+        except Exception as e:  # noqa
+            data, res = None, 'ERR %s' % exc_class(e)
+            if kinds is not None:
+                res += ' at run %d: %s' % (len(dec.calls), str(e)[:160])
+        hs = ';'.join('%d:%s:%s:%d' % (1 if s else 0, ints(lc), ints(cv), w) for (s, lc, cv, w) in full)
+        line = 'run %s %s %d %d %s' % ('_' if mr is None else mr, '_' if mf is None else mf, n, T, hs)
+        rep = {'code': repr(code), 'mode': mode, 'T': T, 'max_runs': mr, 'max_failures': mf,
+               'history': [(s, lc, cv, w) for (s, lc, cv, w) in hist], 'result': res if data is None else
+               {k: (v if isinstance(v, PLAIN) else repr(v)) for k, v in data.items() if k != 'wall_time'}}
+        if kinds is not None:
+            # per run: success, (kind, values) of logical_commutations and of custom_values, error weight
+            uv = (lambda kind, v: None if v is None else
+                  [kind, [x / den if is_float_kind(kind) else x // den for x in v]])
+            rep['history'] = [(s, uv(lk, lc), uv(ck, cv), w) for (s, lc, cv, w), (lk, ck) in zip(hist, kinds)]
+            rep['vectors'] = ('numpy arrays of the named dtype per run (obj = object array of Python ints); tail = '
+                              'failing runs with %s vectors of the last kinds; decoder %s array objects'
+                              % ('zero' if zero_tail else 'copies of the last', 'reuses' if share else 'never reuses'))
         nontriv = any(s for s, *_ in consumed) and any(not s for s, *_ in consumed) and (emr == k or emf == fails)
         ctx.count(line, nontriv, tag, rep if (tag == 'random' and len(ctx.samples) < 3) else None)
         if want_err:
@@ -126,8 +266,9 @@ def run(ctx):
             mu = Fraction(tot, k)
             pv = sum((Fraction(w) - mu) ** 2 for w in ws) / k
             want = {'n_run': k, 'n_success': k - fails, 'n_fail': fails,
-                    'n_logical_commutations': None if lcs is None else tuple(lcs),
-                    'custom_totals': None if cvs is None else tuple(cvs), 'error_weight_total': tot}
+                    'n_logical_commutations': None if lcs is None else tuple(unscale(x, den) for x in lcs),
+                    'custom_totals': None if cvs is None else tuple(unscale(x, den) for x in cvs),
+                    'error_weight_total': tot}
             for key, val in want.items():
                 if data[key] != val:
                     ctx.violation('aggregate-' + key, '%s is not the fold of the runs' % key, dict(rep, want=val))
@@ -158,13 +299,16 @@ def run(ctx):
                 ctx.violation('json-plain-types', 'aggregate holds non-plain / non-JSON-serialisable values '
                               '(e.g. numpy scalars): %s' % sorted(set(bad)), rep)
             impl = 'done %d %d %d %s %s %d' % (data['n_run'], data['n_success'], data['n_fail'],
-                                               ints(data['n_logical_commutations']), ints(data['custom_totals']),
+                                               scaled(data['n_logical_commutations'], den),
+                                               scaled(data['custom_totals'], den),
                                                int(data['error_weight_total']))
             exp_stats = (data['error_weight_pvar'], data['logical_failure_rate'], data['physical_error_rate'])
         req.append(line)
         exp.append((impl, None if (want_err or data is None) else exp_stats, rep))
-        if len(kern) < 80 and tag == 'random' and len(full) <= 14:
-            kern.append((mr, mf, full, impl))
+        if len(full) <= 14 and ((len(kern) < 80 and tag == 'random') or (len(kern_mixed) < 40 and tag == 'mixed'
+                                                                         and data is not None)):
+            (kern if tag == 'random' else kern_mixed).append((mr, mf, full, impl))
+        return True
 
     # ---- exhaustive small histories x all limit pairs ----
     L = 6
@@ -205,6 +349,103 @@ def run(ctx):
         scenario(code, mode, T, mr, mf, hist, 'random', p=rng.choice([0.0, 0.125, 0.5, 1.0]),
                  q=rng.choice([None, 0.0, 0.25]) if mode == 'ftp' else None)
 
+    # ---- per-run vectors of varying numeric kind (dtype / container) within one simulation ----
+    # The aggregate is the element-wise sum whatever dtype each run's vector has. Expected totals: exact fold in
+    # units of 1/4 (reference fold above, and the integer engine on 4*values, justified by c04_scale/c04_scale_inj).
+    def rand_val(kind, binary=False):
+        """a value of the kind in units of 1/DEN"""
+        small, large = KIND_MAG[kind]
+        unsigned = kind[0] == 'u'
+        if binary:
+            return DEN * rng.randint(0, 1)
+        r = rng.random()
+        m = small if r < 0.7 else (large if r < 0.9 else max(small, large // 64))
+        if is_float_kind(kind):
+            return rng.randint(-DEN * m, DEN * m)
+        return DEN * rng.randint(0 if unsigned else -m, m)
+
+    def kind_seq(ln):
+        pat = rng.choice(['switch', 'switch', 'narrow-first', 'wide-first', 'random', 'random', 'uniform'])
+        if pat == 'uniform':
+            return pat, [rng.choice(KINDS)] * ln
+        if pat == 'switch':     # the first r runs of one kind, all later runs of another
+            a, b = rng.sample(KINDS, 2)
+            r = rng.randint(1, max(1, min(3, ln - 1)))
+            return pat, [a] * r + [b] * (ln - r)
+        sub = rng.sample(KINDS, rng.randint(2, 4))
+        ks = [rng.choice(sub) for _ in range(ln)]
+        if pat == 'narrow-first':
+            ks.sort(key=KIND_RANK.get)
+        elif pat == 'wide-first':
+            ks.sort(key=KIND_RANK.get, reverse=True)
+        return pat, ks
+
+    skipped = 0
+    # (a) every ordered pair of kinds: run 1 of kind A, runs 2..3 of kind B, values typical of each kind
+    five = FiveQubitCode()
+    pair_order = ['i64', 'f64', 'i32', 'f32', 'obj'] + [k_ for k_ in KINDS if k_ not in ('i64', 'f64', 'i32', 'f32', 'obj')]
+    for ka in pair_order:
+        for kb in pair_order:
+            for variant in range(ctx.pick(2, 6)):
+                for attempt in range(30):
+                    big = variant % 2 == 1
+                    va = [rand_val(ka), rand_val(ka)]
+                    vb = [[KIND_MAG[kb][1] * DEN // 2 if big else rand_val(kb), rand_val(kb)] for _ in range(2)]
+                    if is_float_kind(kb):
+                        vb[0][1] = 2 * rng.randint(-3, 3) + 1     # an odd number of quarters
+                    lcs_ = [[rand_val(k_, True)] for k_ in (ka, kb, kb)]
+                    hist = [(True, lcs_[0], va, 1), (variant % 3 != 2, lcs_[1], vb[0], 2), (True, lcs_[2], vb[1], 0)]
+                    kinds = [(ka, ka), (kb, kb), (kb, kb)] if variant < 4 else [('i64', ka), (kb, kb), ('i64', kb)]
+                    if scenario(five, 'ideal', 1, 3, None, hist, 'mixed', kinds=kinds, share=bool(variant & 2),
+                                zero_tail=True):
+                        break
+                    skipped += 1
+    # (b) random histories, independent kind sequences for logical_commutations and custom_values
+    done = 0
+    target = ctx.pick(500, 5000)
+    for it in range(target * 20):
+        if done >= target:
+            break
+        code = rng.choice(codes)
+        n = code.n_k_d[0]
+        mode = rng.choice(['ideal', 'ftp'])
+        T = 1 if mode == 'ideal' else rng.randint(1, 3)
+        mr = rng.choice([None, 2, 3, 5, 8, rng.randint(2, ctx.pick(14, 30))])
+        mf = rng.choice([None, None, 2, 3, rng.randint(1, 6)])
+        ln = rng.randint(2, ctx.pick(14, 30))
+        L1, L2 = rng.randint(0, 3), rng.randint(0, 3)
+        _, lks = kind_seq(ln)
+        pat, cks = kind_seq(ln)
+        odd = rng.random()
+        hist = []
+        for i in range(ln):
+            s_ = rng.random() < rng.choice([0.5, 0.8, 0.95])
+            lc = [rand_val(lks[i], True) for _ in range(L1)]
+            cv = [rand_val(cks[i]) for _ in range(L2)]
+            if odd < 0.08:
+                cv = None
+            elif odd < 0.16:
+                lc = None
+            elif odd < 0.22 and i >= ln // 2:                   # shape change half way, whatever the kinds
+                cv = cv + [0]
+            hist.append((s_, lc, cv, rng.randint(0, n * T)))
+        if scenario(code, mode, T, mr, mf, hist, 'mixed', p=rng.choice([0.0, 0.125, 0.5]),
+                    q=rng.choice([None, 0.0, 0.25]) if mode == 'ftp' else None, kinds=list(zip(lks, cks)),
+                    share=rng.random() < 0.5, zero_tail=rng.random() < 0.7):
+            done += 1
+        else:
+            skipped += 1
+    ctx.extra['mixed_kind_histories_outside_domain_skipped'] = skipped
+    ctx.notes.append(
+        'per-run vector kinds explored: numpy arrays of dtype %s (obj = object array of Python ints), float kinds with '
+        'dyadic values k/4, varying from run to run. Domain: every exact partial sum is representable in the dtype '
+        'NumPy promotion (np.result_type) assigns to the kinds seen so far; histories outside it (int8 + int8 '
+        'wrapping, float32 rounding ...) lose information on the unchanged tree too, by the caller\'s choice of '
+        'dtype, and are skipped (%d). Left out after running them on the unchanged tree: Python lists/tuples '
+        '(AttributeError: no .shape - the documented type of DecodeResult vectors is numpy.array 1d), 0-d arrays / '
+        'numpy scalars (TypeError in tuple()), bool arrays (bool + bool stays bool in NumPy).'
+        % (','.join(KINDS), skipped))
+
     out = ctx.model('c04', req)
     for (impl, stats, rep), m, line in zip(exp, out, req):
         toks = m.split(' ')
@@ -224,10 +465,12 @@ def run(ctx):
     def oz(v):
         return 'None' if v is None else 'Some ' + coq_list(['(%d)%%Z' % x for x in v])
     items = []
-    for (mr, mf, full, impl) in kern:
+    for (mr, mf, full, impl) in kern + kern_mixed:
         runs = coq_list(['mkRun %s (%s) (%s) (%d)%%Z' % ('true' if s else 'false', oz(lc), oz(cv), w)
                          for (s, lc, cv, w) in full])
         toks = impl.split(' ')
+        if toks[0] == 'done' and not all(re.fullmatch(r'_|-|-?\d+(,-?\d+)*', t) for t in toks[4:6]):
+            continue            # non-integral totals: already reported above
         if toks[0] == 'done':
             want = 'RDone %s %s %s (%s) (%s) (%s)%%Z' % (
                 toks[1], toks[3], '(%s)' % oz(None if toks[4] == '_' else [int(x) for x in toks[4].split(',') if x != '-']),
